@@ -4,7 +4,7 @@
    Setting (Model/VErr.v): Go map objects live in a heap [h] (address = index), a ValidationError is a tree
    [t : ve] whose nodes refer to their error / warning maps by [mref] (None = nil map).  [wf h t]: every
    reference in t is an allocated address - true of every tree the three constructors can build from maps
-   that exist (C20_constructors), whatever is nil, shared or empty.  [abs h t : vt] is the value of the
+   that exist (C20_constructors, C20_every_construction_wf), whatever is nil, shared or empty.  [abs h t : vt] is the value of the
    tree (the contents of its maps).  The SPECIFICATION of flattening is [pairs w (abs h t)]: the multiset
    of (key, message) pairs defined by C20_spec_unfold / characterised by paths in C20_spec_paths; results
    are compared up to [Permutation] because Go iterates maps in an unspecified order.
@@ -131,6 +131,14 @@ Proof.
   split; [intros; now apply new_validation_errors_spec|intros; now apply new_validation_errors_with_warnings_spec].
 Qed.
 
+(* hence: EVERY nesting of constructor calls ([bexp]: any depth and fan-out, any constructor at any node, any
+   caller-made map of the heap or nil at any place, the same map object at several places) yields a well-formed
+   tree and changes no existing map *)
+Theorem C20_every_construction_wf (b : bexp) (h : heap) (t : ve) (h' : heap) :
+  bexp_ok (length h) b = true -> build b h = (t, h') ->
+  wf h' t = true /\ agree (length h) h h'.
+Proof. intros Hok E. exact (build_ok (length h) b h t h' (le_n _) Hok E). Qed.
+
 (* ---- AddErrorToValidation ---- *)
 (* for EVERY pair of arguments - nil interface, nil pointer, any other error, a ValidationError, or any of
    these wrapped any number of times - in every heap where the ValidationErrors inside them are well formed
@@ -208,4 +216,5 @@ Print Assumptions C20_error_string_spec.
 Print Assumptions C20_reads_pure.
 Print Assumptions C20_reads_repeatable.
 Print Assumptions C20_constructors.
+Print Assumptions C20_every_construction_wf.
 Print Assumptions C20_add_contains.
